@@ -839,8 +839,8 @@ Section ApplyProofs.
         try (apply N.mod_lt; discriminate). lia. }
     split.
     - destruct r; [cbn in Hpos; lia| | | | |];
-        unfold apply_repetition; rewrite Ho in *; cbn [length skipn tl];
-        rewrite (wrapZ_pred_small _ Hlt), N.ltb_irrefl, Nat2N.id, firstn_all; reflexivity.
+        unfold apply_repetition; rewrite Ho in *; cbn [length skipn tl] in *;
+        rewrite (wrapZ_pred_small (length t) Hlt), N.ltb_irrefl, Nat2N.id, firstn_all; reflexivity.
     - rewrite map_length, <- Hc, Ho. cbn [tl length]. lia.
   Qed.
 
